@@ -30,7 +30,9 @@ ASSUMPTIONS = [
     "one Session, SQLite in-memory; rows are only changed through this session, so the model knows which rows exist",
     "objects whose strong reference the harness dropped must disappear from the identity map only if they have no pending changes (documented weak-referencing behaviour); the harness only drops clean objects",
     "a primary key change, delete, modification or merge is not applied to a row that is also loaded under another identity token (two objects would write one row)",
-    "merge(load=False) only for identities whose row exists; rollback is not part of this property (C33/C35)",
+    "merge(load=False) only for identities whose row exists",
+    "rollback / savepoint rollback are exercised for transactions whose changes are flushed key switches, deletes and modifications of committed rows; "
+    "transactions that inserted rows are not rolled back here (C33/C35), nor is the registered C33 shape 'key switch + expunge + rollback'",
 ]
 
 TOKENS = [None, None, None, "t1"]
@@ -67,6 +69,9 @@ def check(case, ctx):
     model = []  # MObj
     idmap = {}  # (pk, token) -> pool index
     next_pk = [100]
+    c_rows = dict(rows)  # rows as of the last COMMIT
+    tx = {"insert": False, "switched_left": False, "switched": {}, "deleted": []}  # what the open transaction did (for rollback)
+    freed = []  # primary keys that became free (rolled-back new keys, deleted / switched-away keys)
     classes = set()
     armed = set()  # keys that went through a pk switch / expunge+add / merge-of-present
     nontrivial = False
@@ -142,9 +147,13 @@ def check(case, ctx):
             op, a, b, c = opd[0], opd[1], opd[2], opd[3]
             token = TOKENS[c % 4]
             if op == "get":
-                pks = sorted(set(rows) | {k[0] for k in idmap} | {1, 2, 3, 4})
+                pks = sorted(set(rows) | {k[0] for k in idmap} | {1, 2, 3, 4} | set(freed[-3:]))
                 pk = pks[a % len(pks)]
+                if a >= 100 and freed:
+                    pk = freed[-1 - (a - 100) % min(len(freed), 2)]  # probe one of the most recently freed keys
                 key = (pk, token)
+                if pk in freed:
+                    classes.add("get-freed-key")
                 pe = b % 5 == 0
                 present = key in idmap
                 unexp = present and not model[idmap[key]].expired
@@ -260,6 +269,7 @@ def check(case, ctx):
                         raise Violation("C34/merge/pending-has-key", f"step {step}: merge of unknown pk {pk} returned an object with identity")
                     sess.flush()
                     rows[pk] = xval
+                    tx["insert"] = True
                     i = receive(got, key, "merge", step)
                 if not load:
                     sess.expire(got)
@@ -291,6 +301,8 @@ def check(case, ctx):
                 sess.expunge(src)
                 del idmap[key]
                 model[si].st = "detached"
+                if si in tx["switched"]:
+                    tx["switched_left"] = True
                 present = b % 3 == 0
                 if present:
                     # control: the session holds that identity again before the merge
@@ -376,6 +388,8 @@ def check(case, ctx):
                     del idmap[old_key]
                     m.key = (new, old_key[1])
                     idmap[m.key] = i
+                    tx["switched"].setdefault(i, old_key)
+                    freed.append(old_key[0])
                     armed.add(m.key)
                     classes.add("pk-switch")
                 elif op == "delete":
@@ -385,6 +399,8 @@ def check(case, ctx):
                     rows.pop(m.key[0])
                     del idmap[m.key]
                     m.st = "gone"
+                    tx["deleted"].append(i)
+                    freed.append(m.key[0])
                     classes.add("delete")
                 elif op == "row_switch":
                     # delete + insert of the same primary key inside ONE flush (the unit of work turns it into an UPDATE)
@@ -398,6 +414,7 @@ def check(case, ctx):
                     sess.flush()
                     flush_model()
                     rows[pk] = n_.x
+                    tx["insert"] = True
                     del idmap[m.key]
                     m.st = "gone"
                     pool.append(n_)
@@ -413,7 +430,10 @@ def check(case, ctx):
                     sess.expunge(o)
                     del idmap[m.key]
                     m.st = "detached"
+                    if i in tx["switched"]:
+                        tx["switched_left"] = True
                 elif op == "drop":
+                    tx["switched"].pop(i, None)  # the state is garbage collected, the weak snapshot entry goes with it
                     del idmap[m.key]
                     m.st = "gone"
                     pool[i] = None
@@ -452,6 +472,7 @@ def check(case, ctx):
                 sess.add(o)
                 sess.flush()
                 rows[pk] = o.x
+                tx["insert"] = True
                 pool.append(o)
                 model.append(MObj((pk, None), "persistent", o.x))
                 idmap[(pk, None)] = len(pool) - 1
@@ -471,6 +492,71 @@ def check(case, ctx):
                 for m in model:
                     if m.st == "persistent":
                         m.expired = True
+                c_rows = dict(rows)
+                tx = {"insert": False, "switched_left": False, "switched": {}, "deleted": []}
+            elif op == "rollback":
+                if tx["insert"]:
+                    ctx.info("skipped:rollback-after-insert-in-transaction")  # rows created in the transaction (C33/C35 territory)
+                    continue
+                if tx["switched_left"]:
+                    ctx.exclude("rollback after a key-switched object was expunged (known finding C33/rollback/expunged-key-switched-object-back-in-identity-map)")
+                    continue
+                restored = set(tx["switched"]) | set(tx["deleted"])
+                if any(m.st == "persistent" and j not in restored and m.key[0] not in c_rows for j, m in enumerate(model) if pool[j] is not None):
+                    ctx.info("skipped:rollback-would-orphan-object-loaded-under-new-key")
+                    continue
+                had_switch = bool(tx["switched"])
+                sess.rollback()
+                rows.clear()
+                rows.update(c_rows)
+                for j, old_key in tx["switched"].items():
+                    m = model[j]
+                    if m.st == "persistent":
+                        idmap.pop(m.key, None)
+                    freed.append(m.key[0])
+                    m.key = old_key
+                    armed.add(old_key)
+                for j in tx["deleted"]:
+                    model[j].st = "persistent"
+                for j, m in enumerate(model):
+                    if m.st == "persistent" and pool[j] is not None:
+                        idmap[m.key] = j
+                        m.expired, m.dirty, m.x = True, False, rows[m.key[0]]
+                freed[:] = [k for k in freed if k not in rows]
+                if had_switch:
+                    classes.add("rollback-after-pk-switch")
+                if tx["deleted"]:
+                    classes.add("rollback-after-delete")
+                tx = {"insert": False, "switched_left": False, "switched": {}, "deleted": []}
+            elif op == "sp_switch_rollback":
+                i = pick(a, lambda m: m.st == "persistent" and not twin(m))
+                if i is None:
+                    continue
+                m, o = model[i], pool[i]
+                next_pk[0] += 1
+                new = next_pk[0]
+                sp = sess.begin_nested()  # flushes whatever is pending
+                flush_model()
+                o.id = new
+                sess.flush()
+                sp.rollback()
+                m.expired, m.dirty = True, False
+                freed.append(new)
+                armed.add(m.key)
+                classes.add("savepoint-pk-switch-rollback")
+                del o, sp
+            elif op == "oob_insert":
+                cand = sorted({k for k in freed if k not in rows and not any(kk[0] == k for kk in idmap)})
+                if not cand:
+                    continue
+                sess.flush()
+                flush_model()
+                pk = cand[a % len(cand)]
+                xv = (b % 7) * 10 + 4
+                sess.connection().exec_driver_sql("INSERT INTO thing (id, x) VALUES (?, ?)", (pk, xv))  # not through the unit of work
+                rows[pk] = xv
+                tx["insert"] = True
+                classes.add("out-of-band-insert-of-freed-key")
             else:
                 raise HarnessError(op)
             classes.add(op)
@@ -483,13 +569,29 @@ def check(case, ctx):
 
 
 _OPS = (["get"] * 6 + ["select"] * 6 + ["merge"] * 4 + ["merge_token"] * 3 + ["refresh", "expire", "expire", "expire_attr", "expire_attr", "modify", "modify_flush", "pk_change", "pk_change", "delete", "expunge", "expunge",
-        "add_back", "add_back", "add_back", "reinsert", "row_switch", "drop", "expire_all", "commit"])
+        "add_back", "add_back", "add_back", "reinsert", "row_switch", "drop", "expire_all", "commit", "commit", "rollback", "rollback", "rollback",
+        "sp_switch_rollback", "sp_switch_rollback", "oob_insert", "oob_insert"])
 
 
 @st.composite
 def _programs(draw):
-    ops = draw(st.lists(st.tuples(st.sampled_from(_OPS), st.integers(0, 9), st.integers(0, 20), st.integers(0, 11)), min_size=3, max_size=40))
-    return {"ops": [list(o) for o in ops]}
+    raw = draw(st.lists(st.tuples(st.sampled_from(_OPS + ["switch_rollback"] * 4), st.integers(0, 9), st.integers(0, 20), st.integers(0, 11)), min_size=3, max_size=36))
+    ops = []
+    for o in raw:
+        if o[0] == "switch_rollback":
+            # macro: flushed key switch, rollback, then look both the restored and the rolled-back key up again
+            ops.append(["pk_change", o[1], o[2], o[3]])
+            if o[2] % 3 == 0:
+                ops.append(["get", 100, 1, 0])
+            ops.append(["rollback", 0, 0, 0])
+            ops.append(["get", 100, 1, 0])
+            ops.append(["get", 101, 1, 0])
+            if o[2] % 2:
+                ops.append(["oob_insert", o[1], o[2], 0])
+            ops.append(["select", 0, 0, 0])
+        else:
+            ops.append(list(o))
+    return {"ops": ops[:44]}
 
 
 def subs(tier):
